@@ -491,14 +491,39 @@ struct RP {
     name: String,
 }
 
+/// Parameter types without any data of their own: they still have an encoding, and `Some(value)`
+/// is a present parameter.
+#[derive(Debug, Serialize, Deserialize, PartialEq, Clone)]
+struct Ack {}
+#[derive(Debug, Serialize, Deserialize, PartialEq, Clone)]
+enum OnlyDone {
+    Done,
+}
+#[derive(Debug, Serialize, Deserialize, PartialEq, Clone)]
+struct Marker(std::marker::PhantomData<u64>, [u8; 0]);
+
 fn reply_cases(sink: &mut Sink<'_>) {
+    reply_cases_for("RP", RP { id: 4, name: "n".into() }, json!({"id": 4, "name": "n"}), sink);
+    reply_cases_for("Ack{} (zero-sized)", Ack {}, json!({}), sink);
+    reply_cases_for("OnlyDone (zero-sized)", OnlyDone::Done, json!("Done"), sink);
+    reply_cases_for("Marker (zero-sized)", Marker(std::marker::PhantomData, []), json!([null, []]), sink);
+    reply_cases_for("Vec<u8> (empty)", Vec::<u8>::new(), json!([]), sink);
+    reply_cases_for("String (empty)", String::new(), json!(""), sink);
+    reply_cases_for("u64 (0)", 0u64, json!(0), sink);
+    reply_cases_for("bool (false)", false, json!(false), sink);
+}
+
+fn reply_cases_for<T>(tname: &str, value: T, value_json: Value, sink: &mut Sink<'_>)
+where
+    T: Serialize + for<'de> Deserialize<'de> + PartialEq + Clone + std::fmt::Debug,
+{
     for with_params in [false, true] {
         for cont in [None, Some(true), Some(false)] {
-            let r = Reply::new(with_params.then(|| RP { id: 4, name: "n".into() })).set_continues(cont);
-            let case = json!({"group": "reply", "parameters": with_params, "continues": cont});
+            let r = Reply::new(with_params.then(|| value.clone())).set_continues(cont);
+            let case = json!({"group": "reply", "parameter_type": tname, "parameters": with_params, "continues": cont});
             let mut expect = Map::new();
             if with_params {
-                expect.insert("parameters".into(), json!({"id": 4, "name": "n"}));
+                expect.insert("parameters".into(), value_json.clone());
             }
             if let Some(c) = cont {
                 expect.insert("continues".into(), json!(c));
@@ -526,7 +551,7 @@ fn reply_cases(sink: &mut Sink<'_>) {
                     texts.push(text_in_order_escaped(&members[..n], &ident, esc));
                 }
                 for text in texts {
-                    match serde_json::from_str::<Reply<RP>>(&text) {
+                    match serde_json::from_str::<Reply<T>>(&text) {
                         Ok(d) if d.parameters() == r.parameters() && d.continues() == cont => sink.pass(H64::new().s(&text).get()),
                         Ok(d) => sink.fail("envelope:reply-decoded-wrongly", format!("`{text}` decoded as {d:?}"), case.clone()),
                         Err(x) => sink.fail("envelope:valid-reply-rejected", format!("`{text}`: {x}"), case.clone()),
